@@ -206,6 +206,8 @@ fn shard(ctx: &ShardCtx) -> ShardResult {
     }
     let mut i = ctx.first_index;
     let clock = ctx.clock();
+    // round-tripping every stage of a large corpus program is slow: generous per-case watchdog
+    set_watchdog_limit(std::time::Duration::from_secs(240));
     // corpus programs (contracts first: storage, contract-call, asm-block and message
     // instructions that generated scripts never contain): every stage of the real pipeline
     // is round-tripped; the build from the re-parsed IR must produce the same bytecode
@@ -214,7 +216,7 @@ fn shard(ctx: &ShardCtx) -> ShardResult {
             let all = crate::e2e::list_buildable_tests(&root);
             let mine = crate::e2e::slice_for(&all, ctx.seed, ctx.shard, ctx.nshards);
             for (name, dir, _) in mine {
-                if clock.elapsed() > ctx.budget.mul_f64(ctx.tier.pick(0.3, 0.5)) {
+                if clock.elapsed() > ctx.budget.mul_f64(0.3) {
                     break;
                 }
                 let profile = if hash64(name.as_bytes()) % 2 == 0 { Profile::Debug } else { Profile::Release };
